@@ -276,3 +276,29 @@ func checkC04(s *Scenario) (fail *Failure, obs *totObs) {
 	}
 	return fail, obs
 }
+
+// checkC04MemHuge: in-memory parsing, rendering, re-formatting and walking of
+// a document with a root block above the STREAMING parser's block-size limit
+// (Parse has none): no panic, no error with healthy writers.
+func checkC04MemHuge(s *Scenario) *Failure {
+	return guard("panic", func() *Failure {
+		blocks, refs := commonmark.Parse(append([]byte(nil), s.Doc...))
+		if len(blocks) < 3 {
+			return &Failure{Check: "eof-only", Observed: fmt.Sprintf("Parse of a %d-byte document returned %d root blocks", len(s.Doc), len(blocks)), Expected: "start, the big block, end"}
+		}
+		if err := (&commonmark.HTMLRenderer{ReferenceMap: refs}).Render(io.Discard, blocks); err != nil {
+			return &Failure{Check: "render-err", Observed: fmt.Sprintf("Render into io.Discard returned %v", err), Expected: "nil"}
+		}
+		if err := formatBlocks(io.Discard, blocks); err != nil {
+			return &Failure{Check: "format-err", Observed: fmt.Sprintf("Format into io.Discard returned %v", err), Expected: "nil"}
+		}
+		n := 0
+		for _, b := range blocks {
+			commonmark.Walk(b.AsNode(), &commonmark.WalkOptions{Pre: func(*commonmark.Cursor) bool { n++; return true }})
+		}
+		if n < len(blocks) {
+			return &Failure{Check: "panic", Observed: "Walk visited fewer nodes than there are root blocks"}
+		}
+		return nil
+	})
+}
